@@ -272,6 +272,15 @@ class Verdict:
         self.violations.append((self.replay_file(payload), no_input))
 
     def known(self, finding_id, what):
+        """a failure the oracle classifies as a recorded finding: suppressed only if known_findings.json lists it as known for this
+        property (a `fixed` entry suppresses nothing: if the failure is back it is a violation)"""
+        listed = [k for k in load_known(self.prop) if k.get("id") == finding_id and k.get("status") == "known"]
+        if not listed:
+            key = ("unlisted", finding_id)
+            if key not in getattr(self, "_unlisted", set()):
+                self._unlisted = getattr(self, "_unlisted", set()) | {key}
+                self.violation({"what": f"failure of class {finding_id}, which known_findings.json does not list as known for {self.prop}: {what}"})
+            return
         line = f"KNOWN-FINDING: property={self.prop} {finding_id}: {what}"
         if line not in self.known_lines:
             self.known_lines.append(line)
